@@ -10,6 +10,10 @@ which counts as 'tie broken'):
                        directories made by writeout, is_more_than_one              (ast + import)
   ford/fortran_project.py  the lists Project.allfiles chains                       (ast)
   ford/__init__.py     main's `len(project.files) < 1 -> exit` guard               (ast)
+  ford/sourceform.py + fortran_project.py   shape of FortranBase.__str__ (link only when `visible`), the class of the
+                       members of every project list that gets pages (annotations of Project.__init__), and
+                       for directly constructed classes the rule for `self.visible` (with the keywords of
+                       the constructor calls)                                           (ast)
   ford/templates/base.html, index.html   every href into lists/ or at project.X[0].get_url(),
                        with the conjunction of the enclosing {% if %} tests        (Jinja2 AST)
 """
@@ -365,6 +369,117 @@ def extract_sourceform(repo: Path):
                 anchor_classes=anchor_classes, overrides=overrides, iface_class=iface_class)
 
 
+# ----------------------------------------------------------------- `__str__` links vs `visible`
+
+STR_WANT = ("if (url := self.full_url) and getattr(self, 'visible', {default}):\n"
+            "    name = self.name or '<em>unnamed</em>'\n"
+            "    return f\"<a href='{{url}}'>{{name}}</a>\"\n"
+            "return self.name or ''")
+
+
+def _settings_opt(n):
+    """`settings.X` / `self.settings.X` -> X"""
+    if isinstance(n, ast.Attribute) and ast.unparse(n.value) in ("settings", "self.settings"):
+        return n.attr
+    return None
+
+
+def extract_visible(repo: Path, page_map, allfiles_parts):
+    """FortranBase.__str__ (shape + default of the `visible` lookup), the class of the members of every
+    project list that gets pages, and - for the classes among them that are built by their own
+    constructor - the condition under which `self.visible` is true after `__init__`."""
+    import ford.sourceform as sf
+
+    tree = ast.parse((repo / "ford" / "sourceform.py").read_text())
+    classes = {n.name: n for n in tree.body if isinstance(n, ast.ClassDef)}
+    st = _func(tree, "FortranBase", "__str__")
+    body = "\n".join(ast.unparse(s) for s in st.body if not (isinstance(s, ast.Expr) and isinstance(s.value, ast.Constant)))
+    default = None
+    for dv in (True, False):
+        if body == STR_WANT.format(default=dv):
+            default = dv
+    if default is None:
+        raise LookupError("FortranBase.__str__ has an unexpected shape: " + body[:200])
+    for name, c in classes.items():
+        cls = getattr(sf, name, None)
+        if name != "FortranBase" and isinstance(cls, type) and issubclass(cls, sf.FortranBase) \
+                and not getattr(cls, "IS_SPOOF", False) and not name.startswith("External"):
+            if any(isinstance(f, ast.FunctionDef) and f.name == "__str__" for f in c.body):
+                raise LookupError(f"{name} overrides __str__")
+    # members of the project lists
+    ptree = ast.parse((repo / "ford" / "fortran_project.py").read_text())
+    pinit = _func(ptree, "Project", "__init__")
+    ann = {}
+    for n in ast.walk(pinit):
+        if isinstance(n, ast.AnnAssign) and isinstance(n.target, ast.Attribute) and ast.unparse(n.target.value) == "self":
+            a = n.annotation
+            if isinstance(a, ast.Subscript) and ast.unparse(a.value) == "List" and isinstance(a.slice, ast.Name):
+                ann[n.target.attr] = a.slice.id
+    wanted = []
+    for lst, _c, _cls in page_map:
+        for l in (allfiles_parts if lst == "allfiles" else [lst]):
+            if l not in wanted:
+                wanted.append(l)
+    list_class = []
+    for l in wanted:
+        if l not in ann or ann[l] not in classes:
+            raise LookupError(f"Project.__init__: no `self.{l}: List[<class>]` annotation")
+        list_class.append((l, ann[l]))
+    # constructor calls in fortran_project.py (keywords handed to the constructors)
+    calls = {}
+    for n in ast.walk(ptree):
+        if isinstance(n, ast.Call) and isinstance(n.func, ast.Name) and n.func.id in classes:
+            calls.setdefault(n.func.id, []).append(n)
+    vis_init = []
+    for cname in dict.fromkeys(c for _l, c in list_class):
+        cls = getattr(sf, cname)
+        owner = next((k for k in cls.__mro__ if "__init__" in vars(k)), None)
+        if owner is None or owner.__name__ not in classes:
+            raise LookupError(f"{cname}: constructor not found")
+        init = _func(tree, owner.__name__, "__init__")
+        assigns = [s for s in ast.walk(init) if isinstance(s, ast.Assign) and any(ast.unparse(t) == "self.visible" for t in s.targets)]
+        if owner in (sf.FortranBase, sf.FortranContainer) or (not assigns and "super().__init__(" in ast.unparse(init)):
+            # FortranBase.__init__ starts with visible = False; parsing / correlation decide later (not modelled)
+            if not any(ast.unparse(s) == "self.visible = False" for s in _func(tree, "FortranBase", "__init__").body):
+                raise LookupError("FortranBase.__init__ no longer starts with `self.visible = False`")
+            continue
+        # (a constructor that sets the flag itself: the rule is confirmed at run time on every instance,
+        #  harness/c09.py compares the attribute of the real objects with the rule's value)
+        if any(isinstance(s, (ast.AugAssign, ast.AnnAssign)) and ast.unparse(s.target) == "self.visible" for s in ast.walk(init)):
+            raise LookupError(f"{owner.__name__}.__init__: unsupported assignment to self.visible")
+        if not assigns:
+            vis_init.append((cname, ("tt",) if default else ("not", ("tt",)), "attribute never set: default of getattr"))
+            continue
+        if len(assigns) != 1 or assigns[0] not in init.body:
+            raise LookupError(f"{owner.__name__}.__init__: self.visible is assigned conditionally or more than once")
+        v = assigns[0].value
+        if isinstance(v, ast.Constant) and isinstance(v.value, bool):
+            cond = ("tt",) if v.value else ("not", ("tt",))
+        elif _settings_opt(v):
+            cond = ("opt", _settings_opt(v))
+        elif (isinstance(v, ast.Call) and ast.unparse(v.func) == "kwargs.get" and len(v.args) == 2
+              and all(isinstance(a, ast.Constant) for a in v.args) and isinstance(v.args[1].value, bool)):
+            key, dflt = v.args[0].value, v.args[1].value
+            sites = calls.get(cname, [])
+            if not sites:
+                raise LookupError(f"no constructor call of {cname} in fortran_project.py")
+            given = [next((k.value for k in c.keywords if k.arg == key), None) for c in sites]
+            if any(k.arg is None for c in sites for k in c.keywords):
+                raise LookupError(f"{cname}(**...) call: keywords not static")
+            if all(g is None for g in given):
+                cond = ("tt",) if dflt else ("not", ("tt",))
+            elif all(g is not None and _settings_opt(g) for g in given) and len({_settings_opt(g) for g in given}) == 1:
+                cond = ("opt", _settings_opt(given[0]))
+            elif all(isinstance(g, ast.Constant) and isinstance(g.value, bool) for g in given) and len({g.value for g in given}) == 1:
+                cond = ("tt",) if given[0].value else ("not", ("tt",))
+            else:
+                raise LookupError(f"{cname}: keyword {key!r} of the constructor calls has an unsupported value")
+        else:
+            raise LookupError(f"{owner.__name__}.__init__: unsupported value of self.visible: {ast.unparse(v)}")
+        vis_init.append((cname, cond, ast.unparse(assigns[0])))
+    return dict(vis_init=vis_init, list_class=list_class, default_visible=default)
+
+
 # ----------------------------------------------------------------- templates (Jinja2 AST)
 
 def j_nexpr(n):
@@ -499,13 +614,15 @@ def extract(repo: Path | None = None) -> dict:
     parts, pre = extract_project(repo)
     sfd = extract_sourceform(repo)
     nav = extract_templates(repo)
-    return dict(page_map=page_map, list_conds=list_conds, out_dirs=out_dirs, allfiles=parts, main_pre=pre, nav=nav, **sfd)
+    vis = extract_visible(repo, page_map, parts)
+    return dict(page_map=page_map, list_conds=list_conds, out_dirs=out_dirs, allfiles=parts, main_pre=pre, nav=nav, **sfd, **vis)
 
 
 def to_lean(d: dict) -> str:
     L = ["/- GENERATED by translate/c09.py from ford/output.py, ford/sourceform.py, ford/fortran_project.py,",
          "   ford/__init__.py, ford/templates/base.html, ford/templates/index.html - do not edit -/",
-         "import FordModel.Nav", "import FordModel.Url", "namespace Ford.Generated.C09", "open Ford Ford.Nav Ford.Url", ""]
+         "import FordModel.Nav", "import FordModel.Url", "import FordModel.StrLink", "namespace Ford.Generated.C09",
+         "open Ford Ford.Nav Ford.Url", ""]
     L.append("def navTables : Nav.Tables := {")
     L.append("  listPageConds := [")
     L += ["    (%s, %s)%s  -- %s" % (lstr(p), lcond(c), "," if i < len(d["list_conds"]) - 1 else "", f"{cls} {p}")
@@ -543,6 +660,18 @@ def to_lean(d: dict) -> str:
         L.append("    (%s, %s)%s  -- %s: %s %s" % (lstr(n), ov, "," if i < len(d["overrides"]) - 1 else "", n, kind, arg or ""))
     L.append("  ],")
     L.append("  outDirs := %s  -- %s" % (llist(lstr(x) for x in d["out_dirs"]), ", ".join(d["out_dirs"])))
+    L.append("}")
+    L.append("")
+    L.append("def visTables : StrLink.Tables := {")
+    L.append("  visInit := [")
+    L += ["    (%s, %s)%s  -- %s: %s" % (lstr(n), lcond(c), "," if i < len(d["vis_init"]) - 1 else "", n, src)
+          for i, (n, c, src) in enumerate(d["vis_init"])]
+    L.append("  ],")
+    L.append("  listClass := [")
+    L += ["    (%s, %s)%s  -- project.%s: List[%s]" % (lstr(l), lstr(c), "," if i < len(d["list_class"]) - 1 else "", l, c)
+          for i, (l, c) in enumerate(d["list_class"])]
+    L.append("  ],")
+    L.append("  defaultVisible := %s" % ("true" if d["default_visible"] else "false"))
     L.append("}")
     L += ["", "end Ford.Generated.C09", ""]
     return "\n".join(L)
